@@ -63,7 +63,7 @@ K_ACCEPT = "torn-read-accepted:"            # + grid | CompleteStorage
 K_NOTRT = "torn-read-not-runtime-error:"    # + grid | CompleteStorage
 K_PARKED = "budget-exceeded-after-restart:parked-points"
 
-FAMILIES_QUICK = [("localp", 40, 1, 1)]
+FAMILIES_QUICK = [("localp", 40, 1, 1), ("global", 16, 1, 1)]     # the Global/Fourier construction data (tensor flags rebuilt by the reader) is a different container
 FAMILIES_THOROUGH = [("localp", 40, 1, 1), ("localp", 30, 3, 2), ("localp2", 24, 2, 1), ("localp0", 20, 1, 3), ("wavelet", 16, 1, 1),
                      ("sequence", 24, 1, 1), ("sequence", 24, 3, 1), ("global", 24, 2, 1), ("globalout", 20, 1, 1), ("fourier", 18, 1, 1)]
 MK_FAMILIES = ["localp", "localp2", "localp0", "wavelet", "sequence", "global", "fourier"]
